@@ -893,6 +893,34 @@ def _norm_generics(path):
     return path
 
 
+def _canonical_generic_names(facts, known_list):
+    """A function whose path differs from a known one only in the *names* of generic parameters (a method moved to
+    an impl block that calls the parameter `RW` instead of `W`) is given the known path again, everywhere it is
+    mentioned, so that rules and tables keyed by path keep applying."""
+    have = {b["path"] for b in facts["bodies"]}
+    by_norm = {}
+    for k in known_list:
+        by_norm.setdefault(_norm_generics(k), []).append(k)
+    ren = {}
+    for b in facts["bodies"]:
+        pth = b["path"]
+        if b["kind"] != "fn" or pth in known_list:
+            continue
+        c = by_norm.get(_norm_generics(pth), [])
+        if len(c) == 1 and c[0] not in have:
+            ren[pth] = c[0]
+    if not ren:
+        return facts
+    txt = json.dumps(facts)
+    for old_, new_ in sorted(ren.items(), key=lambda kv: -len(kv[0])):
+        o = json.dumps(old_)[1:-1]
+        n = json.dumps(new_)[1:-1]
+        txt = re.sub(re.escape(o) + r'(?=["\\:])', n.replace("\\", "\\\\"), txt)
+    facts = json.loads(txt)
+    facts["renamed_generics"] = ren
+    return facts
+
+
 def _has_loop(C):
     """does the (raw) body have a cycle along normal edges?"""
     succ = {}
@@ -1085,7 +1113,9 @@ class Program:
         try:
             import os
             kp = os.path.join(os.path.dirname(os.path.dirname(os.path.abspath(__file__))), "spec", "known_fns.json")
-            known = {_norm_generics(x) for x in json.load(open(kp))["fns"]}
+            known_list = json.load(open(kp))["fns"]
+            facts = _canonical_generic_names(facts, known_list)
+            known = {_norm_generics(x) for x in known_list}
             def is_new(path):
                 # generic parameter names are not part of a function's identity (moving a method between impl blocks renames them)
                 return _norm_generics(path) not in known and "::tests::" not in path and "{closure" not in path
